@@ -8,14 +8,21 @@ I/O faults at seeded call counts, Session restarts in between, and a small refer
   C24  per host file a list of records (WRITE# records with typed items, PRINT# lines) = a
        reference byte string; per file number a read cursor.  Values read = values written,
        EOF exactly at the end, LOF = bytes, APPEND extends, host bytes = model after CLOSE.
+       A statement that is refused because the file is open under another number (second OPEN
+       for OUTPUT/APPEND, SAVE, LIST ,"file", BSAVE, KILL, NAME) leaves the host file byte for
+       byte as it was and the holder reads on (C26's open histories check the same).
   C25  per host file a bytearray; per file number record length, position, FIELD buffer, ACCESS
        mode; the acknowledged record locks.  PUT/GET that are refused (record locked through
        another number on the same file, ACCESS mode) or fail in a host seek/read leave file,
        buffer and - with an implicit record number - the record pointer where they were, and the
        history goes on with the file open (retries).  Statements that reset the FIELD buffers
        while files stay open (CHAIN, RUN/LOAD ,R of a program on the disk, CLEAR, NEW, DELETE,
-       entering a program line) and suspend/resume come in between; parts of a history run as
-       lines of the stored program instead of being typed.
+       MERGE, entering a program line) and suspend/resume come in between.  Stretches of a
+       history run as lines of a stored program instead of being typed: the program holding the
+       statements of the stretch is entered as a whole first (typed, or LOAD ,R/RUN ,R/CHAIN of a
+       file - a buffer reset itself), each statement is run with GOTO <line> up to the STOP
+       behind it, and CHAIN/RUN/LOAD inside the stretch go to a program on the disk that holds
+       the rest of the stretch (P1 does OPEN/FIELD/LSET/PUT and CHAINs; P2 FIELDs again, PUTs, GETs).
   C26  the set of *acknowledged* locks (LOCK returned without error, not yet UNLOCKed/CLOSEd)
        and the open table; implementation-independent invariants over them.
 
@@ -70,17 +77,25 @@ def quick_runs(prop):
     return {'C24': 14000, 'C25': 18000, 'C26': 20000}[prop]
 
 
-class ProgModeBroken(Exception):
-    """The harness could not put a statement into the stored program (MERGE of a two-line file failed)."""
-
-    def __init__(self, stmt, err):
-        Exception.__init__(self, 'MERGE failed with %r' % (err,))
-        self.stmt = stmt
-        self.err = err
-
-
-# the program that CHAIN / RUN ,R / LOAD ,R load (plain text; line 20 is the slot for the next statement)
-P2_TEXT = b'10 REM P2\r\n20 REM\r\n30 STOP\r\n\x1a'
+def build_program(stmts):
+    """
+    Text of a stored program (plain text, as SAVE ,A writes it) that holds the given statements, and
+    the table statement -> line number.  Lines 10-30 are a header that ends in STOP (where CHAIN,
+    RUN ,R and LOAD ,R end up); every statement has a line of its own followed by a STOP line, so
+    that the harness can run it inside the program with GOTO <line> and look at the result at the
+    STOP (files stay open at STOP, variables and FIELD buffers are kept).
+    """
+    lines = [b'10 REM', b'20 REM', b'30 STOP']
+    table = {}
+    n = 100
+    for st in stmts:
+        if st in table or len(st) > 230:
+            continue
+        table[st] = n
+        lines.append(b'%d %s' % (n, st))
+        lines.append(b'%d STOP' % (n + 5))
+        n += 10
+    return b'\r\n'.join(lines) + b'\r\n\x1a', table
 
 
 class FaultCrash(Exception):
@@ -107,10 +122,13 @@ class Ctx(object):
         self.trace = []
         self.lastfired = []
         self.tainted = None     # label of an earlier faulted statement whose aftermath we are in
-        # program mode: every statement is put into the stored program as line 20 (MERGE of a two-line
-        # text file, which keeps variables, files and FIELD buffers) and run there with GOTO 20; the
-        # program stops at line 30 STOP (files stay open), or with the statement's error "... in 20"
+        # program mode: the statements of the coming stretch of the history are lines of the stored
+        # program (entered/loaded as a whole *before* they run: adding a line clears the variables); a
+        # statement is run with GOTO <its line> and the program stops at the STOP behind it, or with the
+        # statement's error "... in <line>".  table = what the program in memory holds; a statement that
+        # is not in it is typed.
         self.prog = False
+        self.table = {}
 
     def start(self):
         self.d = Driver(self.w, devices={'C:': self.root}, current_device='C:', **self.skw)
@@ -119,6 +137,7 @@ class Ctx(object):
         self.fs.disarm()
         self.d.close()
         self.start()
+        self.table = {}
         self.run.fault('restart')
         self.trace.append('<Session closed; new Session on the same mount>')
 
@@ -133,15 +152,15 @@ class Ctx(object):
     def x(self, line, label=None):
         """Execute a statement; remember which injected faults fired in it."""
         n0 = len(self.fs.fired)
-        self.trace.append((u'[program line 20] ' if self.prog else u'') + u(line)[:120])
+        lineno = self.table.get(bytes(line)) if self.prog else None
+        self.trace.append((u'[program line %d] ' % lineno if lineno else u'') + u(line)[:120])
         try:
-            if self.prog:
-                self.put_host('OV.BAS', b'20 ' + line + b'\r\n30 STOP\r\n\x1a')
-                r = self.d.exec(b'MERGE "OV"')
-                if r.err is not None:
-                    raise ProgModeBroken(line, r.err)
-                r = self.d.exec(b'GOTO 20')
+            if lineno:
+                self.run.probe('statement-run-as-program-line')
+                r = self.d.exec(b'GOTO %d' % lineno)
             else:
+                if self.prog:
+                    self.run.probe('statement-typed-in-program-mode(not in the stored program)')
                 r = self.d.exec(line)
         except EngineCrash as e:
             fired = self.fs.fired[n0:]
@@ -192,6 +211,8 @@ class Base(object):
         self.cfg = cfg
         self.maxf = cfg['session'].get('max_files', 3)
         self.h = {}
+        self.ops = []       # the whole history and the index of the op being executed (program mode
+        self.ip = 0         # looks ahead to know which statements the stored program must hold)
 
     def bad(self, sig, detail):
         self.run.violate(self.prop, sig, '%s\n  statements: %s' % (detail, self.cx.witness()))
@@ -210,8 +231,6 @@ class Base(object):
     def op_fault(self, op):
         # at most one pending fault, so that a statement is hit by at most one (clean signatures)
         self.cx.fs.disarm()
-        if self.cx.prog:
-            return    # in program mode the MERGE that places the statement would take the fault
         self.cx.fs.arm(op['kind'], op['nth'], getattr(errno, op['err']), torn=op.get('torn'))
         self.run.probe('fault-armed')
 
@@ -304,12 +323,17 @@ class Seq(Base):
         n, name, mode = op['n'], op['name'], op['mode']
         f = self.fm(name)
         others = [k for k, hh in self.h.items() if hh['name'] == name and k != n]
-        if others and not (mode == 'I' and all(self.h[k]['mode'] == 'I' for k in others)):
-            return   # sharing a file between numbers is C26's business
         if op.get('syn'):
             stmt = b'OPEN "%s",#%d,"%s"' % (b(mode), n, b(name))
         else:
             stmt = b'OPEN "%s" FOR %s AS #%d' % (b(name), MODEWORD[mode], n)
+        if others and not (mode == 'I' and all(self.h[k]['mode'] == 'I' for k in others)):
+            if mode in 'OA':
+                # OUTPUT/APPEND on a name that is open under another number: the engine refuses it (File
+                # already open). Whether it must is C26's business; what C24 demands is that a *refused*
+                # OPEN leaves the file as it is - the data written stay, the other number reads on.
+                return self.refused_leaves_file(stmt, 'OPEN-' + mode, name, others)
+            return   # (INPUT beside OUTPUT/APPEND) sharing a file between numbers is C26's business
         before = self.cx.host(name)
         r = self.cx.x(stmt, 'OPEN-' + mode)
         fk = self.fired_kind()
@@ -362,6 +386,50 @@ class Seq(Base):
                 del self.h[n]
                 return self.bad('open-damaged-file:%s:%s-fault' % (mode, fk), '%r reported success; host file was %r, '
                                 'is now %r' % (stmt, before and before[-60:], after[-60:]))
+
+    def refused_leaves_file(self, stmt, label, name, holders, also=None):
+        """
+        A statement that would open (create, truncate, delete, rename) the host file `name`, which is
+        open under the numbers in holders. If it reports an error, the host file is byte for byte what
+        it was (and a file named `also` has not appeared); the holders' reads and writes go on being
+        judged against the unchanged reference. If it is accepted, the reference cannot follow (two
+        writers on one file are outside C24): the history ends there, unjudged.
+        """
+        before = self.cx.host(name)
+        before_also = self.cx.host(also) if also else None
+        r = self.cx.x(stmt, label)
+        k = holders[0]
+        held = {'I': 'INPUT', 'O': 'OUTPUT', 'A': 'APPEND'}[self.h[k]['mode']]
+        self.run.state('C24', 'on-open-file', label, held, r.err, self.fired_kind())
+        self.run.probe('statement-on-a-file-open-under-another-number:' + label)
+        self.cx.fs.disarm()
+        if r.err is None:
+            self.run.probe('statement-on-open-file-accepted(history ends unjudged)')
+            self.run.stop = True
+            return
+        after = self.cx.host(name)
+        if after != before or (also and self.cx.host(also) != before_also):
+            return self.bad('refused-statement-changed-file:%s:held-for-%s' % (label, held),
+                            '%r reported error %d (#%d has %s open for %s) but the host file went from %d bytes %r to '
+                            '%s' % (stmt, r.err, k, name, held, len(before or b''), (before or b'')[-40:],
+                                    'nothing' if after is None else '%d bytes %r' % (len(after), after[-40:])))
+
+    def op_sysop(self, op):
+        """SAVE, SAVE ,A, LIST ,"file", BSAVE, KILL, NAME aimed at a file that is open under a number."""
+        name, kind = op['name'], op['kind']
+        holders = sorted(k for k, hh in self.h.items() if hh['name'] == name)
+        if not holders:
+            return    # on a closed file these statements replace or remove it: not part of this model
+        if kind in ('save', 'savea', 'list', 'bsave') and '.' not in name:
+            return    # the default extension .BAS would make it another file
+        stmt = {
+            'save': b'SAVE "%s"', 'savea': b'SAVE "%s",A', 'list': b'LIST ,"%s"', 'bsave': b'BSAVE "%s",0,16',
+            'kill': b'KILL "%s"', 'name': b'NAME "%s" AS "RENAMED.DAT"', 'nameto': b'NAME "OTHER.DAT" AS "%s"',
+        }[kind] % b(name)
+        if kind == 'nameto':
+            self.cx.put_host('OTHER.DAT', b'other\r\n\x1a')
+        self.refused_leaves_file(stmt, kind.upper(), name, holders,
+                                 also={'name': 'RENAMED.DAT', 'nameto': 'OTHER.DAT'}.get(kind))
 
     def op_close(self, op):
         n = op['n']
@@ -891,14 +959,62 @@ class Rand(Base):
 
     # ops ---------------------------------------------------------------------
 
-    def _field(self, n, h, widths):
+    @staticmethod
+    def _field_stmt(n, widths):
+        """(FIELD statement, [(variable, offset, width)])"""
         names, off, fields = [], 0, []
         for i, wd in enumerate(widths):
             var = b'%s%d$' % (b'ABCDEFGH'[i:i + 1], n)
             names.append(b'%d AS %s' % (wd, var))
             fields.append((var, off, wd))
             off += wd
-        r = self.cx.x(b'FIELD #%d,' % n + b','.join(names), 'FIELD')
+        return b'FIELD #%d,' % n + b','.join(names), fields
+
+    @staticmethod
+    def _widths(op, reclen):
+        total = max(1, int(round(op.get('cover', 1.0) * reclen)))
+        cuts = sorted(set(int(round(c * total)) for c in op['cuts'][:7]))
+        bounds = [0] + [c for c in cuts if 0 < c < total] + [total]
+        return [bounds[i + 1] - bounds[i] for i in range(len(bounds) - 1)]
+
+    @staticmethod
+    def _open_stmt(op):
+        n, name, reclen = op['n'], op['name'], op['reclen']
+        syn = op.get('syn', 0)
+        access = op.get('access', '')
+        if access:
+            # ACCESS only restricts what this number may do (no LOCK clause: sharing is as without it)
+            return b'OPEN "%s" %sACCESS %s AS #%d LEN=%d' % (
+                b(name), b'FOR RANDOM ' if syn else b'', {'R': b'READ', 'W': b'WRITE', 'RW': b'READ WRITE'}[access],
+                n, reclen)
+        if syn == 1:
+            return b'OPEN "R",#%d,"%s",%d' % (n, b(name), reclen)
+        if syn == 2:
+            return b'OPEN "%s" FOR RANDOM AS #%d LEN=%d' % (b(name), n, reclen)
+        return b'OPEN "%s" AS #%d LEN=%d' % (b(name), n, reclen)
+
+    @staticmethod
+    def _zfield_stmt(n, reclen, blank):
+        return b'FIELD #%d,%d AS Z%d$' % (n, reclen, n) + (b':LSET Z%d$=""' % n if blank else b'')
+
+    @staticmethod
+    def _lock_stmt(op):
+        """(statement, first, last) of a LOCK/UNLOCK op; first None = whole file, False = not sent."""
+        n, a, bb = op['n'], op.get('a'), op.get('b')
+        word = b'UNLOCK' if op['op'] == 'unlock' else b'LOCK'
+        if a is None:
+            return b'%s #%d' % (word, n), None, None
+        if bb is None:
+            stmt, bb = b'%s #%d,%d' % (word, n, a), a
+        else:
+            stmt = b'%s #%d,%d TO %d' % (word, n, a, bb)
+        if not 1 <= a <= bb <= 2 ** 24:
+            return stmt, False, False
+        return stmt, a, bb
+
+    def _field(self, n, h, widths):
+        stmt, fields = self._field_stmt(n, widths)
+        r = self.cx.x(stmt, 'FIELD')
         if r.err is not None:
             return self.bad('field-error', 'FIELD with widths %r on record length %d gave error %d' % (
                 widths, h['reclen'], r.err))
@@ -909,19 +1025,8 @@ class Rand(Base):
         others = self.sharers(name, n)
         if others and not self.cfg.get('share'):
             return
-        syn = op.get('syn', 0)
         access = op.get('access', '')
-        if access:
-            # ACCESS only restricts what this number may do (no LOCK clause: sharing is as without it)
-            stmt = b'OPEN "%s" %sACCESS %s AS #%d LEN=%d' % (
-                b(name), b'FOR RANDOM ' if syn else b'', {'R': b'READ', 'W': b'WRITE', 'RW': b'READ WRITE'}[access],
-                n, reclen)
-        elif syn == 1:
-            stmt = b'OPEN "R",#%d,"%s",%d' % (n, b(name), reclen)
-        elif syn == 2:
-            stmt = b'OPEN "%s" FOR RANDOM AS #%d LEN=%d' % (b(name), n, reclen)
-        else:
-            stmt = b'OPEN "%s" AS #%d LEN=%d' % (b(name), n, reclen)
+        stmt = self._open_stmt(op)
         before = self.cx.host(name)
         r = self.cx.x(stmt, 'OPEN-R')
         fk = self.fired_kind()
@@ -967,7 +1072,7 @@ class Rand(Base):
              'access': access}
         self.h[n] = h
         # make the buffer known: one variable over the whole record, blanked
-        r = self.cx.x(b'FIELD #%d,%d AS Z%d$:LSET Z%d$=""' % (n, reclen, n, n), 'FIELD')
+        r = self.cx.x(self._zfield_stmt(n, reclen, True), 'FIELD')
         if r.err is not None:
             return self.bad('field-error', 'FIELD/LSET over the whole record gave error %d' % r.err)
         self._field(n, h, [reclen])
@@ -977,10 +1082,7 @@ class Rand(Base):
         h = self.h.get(n)
         if h is None:
             return
-        total = max(1, int(round(op.get('cover', 1.0) * h['reclen'])))
-        cuts = sorted(set(int(round(c * total)) for c in op['cuts'][:7]))
-        bounds = [0] + [c for c in cuts if 0 < c < total] + [total]
-        self._field(n, h, [bounds[i + 1] - bounds[i] for i in range(len(bounds) - 1)])
+        self._field(n, h, self._widths(op, h['reclen']))
         self.note('field', h, len(h['fields']))
         if not self.run.stop:
             self.check_buffer(n, h, 'buffer-mismatch-after-FIELD')
@@ -1173,18 +1275,13 @@ class Rand(Base):
 
     def op_lock(self, op):
         """LOCK/UNLOCK through a number on a random file; the model keeps the acknowledged locks."""
-        n, a, bb = op['n'], op.get('a'), op.get('b')
+        n = op['n']
         unlock = op['op'] == 'unlock'
-        word = b'UNLOCK' if unlock else b'LOCK'
-        if a is None:
-            stmt, bb = b'%s #%d' % (word, n), None
-        elif bb is None:
-            stmt, bb = b'%s #%d,%d' % (word, n, a), a
-        else:
-            stmt = b'%s #%d,%d TO %d' % (word, n, a, bb)
-        if a is not None and not 1 <= a <= bb <= 2 ** 24:
+        stmt, a, bb = self._lock_stmt(op)
+        if a is False:
             return
-        r = self.cx.x(stmt, word.decode())
+        word = 'UNLOCK' if unlock else 'LOCK'
+        r = self.cx.x(stmt, word)
         h = self.h.get(n)
         if h is None:
             return
@@ -1199,46 +1296,136 @@ class Rand(Base):
 
     op_unlock = op_lock
 
+    # program mode --------------------------------------------------------------
+
+    RESETS = {
+        'chain': b'CHAIN "P2"', 'chainmerge': b'CHAIN MERGE "P2"', 'chainall': b'CHAIN "P2",,ALL',
+        'runr': b'RUN "P2",R', 'loadr': b'LOAD "P2",R', 'run': b'RUN "P2"', 'load': b'LOAD "P2"',
+        'clear': b'CLEAR', 'new': b'NEW', 'delete': b'DELETE 10', 'edit': b'15 REM', 'merge': b'MERGE "M1"',
+    }
+    LOADS = ('chain', 'chainmerge', 'chainall', 'runr', 'loadr', 'run', 'load')    # P2 becomes the program
+
+    def candidates(self, op, recl):
+        """
+        The statements the op may make the executor issue, whatever the outcomes (a superset: what is
+        never asked for just sits in the program). recl: number -> record lengths it may have by then.
+        """
+        k, n = op['op'], op.get('n')
+        if k == 'ropen':
+            yield self._open_stmt(op)
+            if op['reclen'] <= self.max_reclen and n <= self.maxf:
+                recl.setdefault(n, set()).add(op['reclen'])
+                yield self._zfield_stmt(n, op['reclen'], True)
+                yield self._field_stmt(n, [op['reclen']])[0]
+        elif k == 'field':
+            for rl in sorted(recl.get(n, ())):
+                yield self._field_stmt(n, self._widths(op, rl))[0]
+        elif k == 'lset':
+            if op['f'] < 8:
+                yield (b'RSET ' if op.get('right') else b'LSET ') + b'%s%d$' % (b'ABCDEFGH'[op['f']:op['f'] + 1], n) + b'=V$'
+        elif k in ('put', 'get'):
+            yield self._target(n, None, op.get('rec'), k.upper().encode())[0]
+            yield b'Q#=LOC(%d)' % n
+        elif k in ('lof', 'loc'):
+            yield b'Q#=%s(%d)' % (k.upper().encode(), n)
+        elif k == 'rclose':
+            yield b'CLOSE #%d' % n
+        elif k in ('lock', 'unlock'):
+            stmt, a, _ = self._lock_stmt(op)
+            if a is not False:
+                yield stmt
+        elif k == 'reset':
+            if op['kind'] != 'edit':
+                yield self.RESETS[op['kind']]
+            for m in sorted(recl):
+                yield b'Q#=LOC(%d)' % m
+                for rl in sorted(recl[m]):
+                    yield self._zfield_stmt(m, rl, False)
+
+    def lookahead(self, start):
+        """
+        Statements of the ops from index `start` to the end of the program-mode stretch, behind those
+        that follow the loading of the program itself (LOC and FIELD for every open number).
+        """
+        recl = {n: {h['reclen']} for n, h in self.h.items()}
+        out = []
+        for m in sorted(recl):
+            out.append(b'Q#=LOC(%d)' % m)
+            out.append(self._zfield_stmt(m, self.h[m]['reclen'], False))
+        for op in self.ops[start:]:
+            if op['op'] == 'mode' and not op.get('prog'):
+                break
+            out.extend(self.candidates(op, recl))
+        return out
+
+    def enter_program(self, how):
+        """
+        Put the statements of the coming stretch into the program memory as one stored program:
+        typed line by line, or written to the disk and brought in with LOAD ,R / RUN ,R / CHAIN (the
+        open files stay open). Either way the variables are cleared and the record buffers reset.
+        """
+        self.cx.fs.disarm()
+        text, table = build_program(self.lookahead(self.ip + 1))
+        self.cx.prog = False
+        lines = text.rstrip(b'\x1a').split(b'\r\n')[:-1]
+        if how == 'typed' and len(lines) > 70:
+            how = 'loadr'
+        if how == 'typed':
+            self.cx.trace.append('<%d program lines typed>' % len(lines))
+            self.cx.d.exec(b'NEW')
+            err = None
+            for ln in lines:
+                err = err or self.cx.d.exec(ln).err
+        else:
+            self.cx.put_host('P1.BAS', text)
+            err = self.cx.x({'loadr': b'LOAD "P1",R', 'runr': b'RUN "P1",R', 'chain': b'CHAIN "P1"'}[how], 'RESET').err
+        self.run.probe('program-entered:' + how)
+        self.run.state('C25', 'mode', how, len(self.h), min(len(table), 20) // 4, err)
+        self.cx.table = {} if err is not None else table
+        self.cx.prog = True
+        self.cx.trace.append('<from here on statements are lines of the stored program, run with GOTO>')
+        self.after_reset(how)
+
     def op_mode(self, op):
         """Switch between typing the statements (direct mode) and running them as lines of the stored program."""
-        self.cx.fs.disarm()
-        self.cx.prog = bool(op.get('prog'))
-        self.cx.trace.append('<from here on statements %s>' % ('run inside the stored program (MERGEd as line 20, GOTO 20)'
-                                                             if self.cx.prog else 'are typed'))
-        self.run.state('C25', 'mode', self.cx.prog, len(self.h))
+        if op.get('prog'):
+            return self.enter_program(op.get('how', 'loadr'))
+        self.cx.prog = False
+        self.cx.trace.append('<from here on statements are typed>')
+        self.run.state('C25', 'mode', False, len(self.h))
 
     def op_resume(self, op):
         # open files, their record buffers and positions survive suspend/resume; the model is unchanged
         self.cx.resume()
         self.run.state('C25', 'resume', len(self.h), self.cx.prog)
 
-    RESETS = {
-        'chain': b'CHAIN "P2"', 'chainmerge': b'CHAIN MERGE "P2"', 'chainall': b'CHAIN "P2",,ALL',
-        'runr': b'RUN "P2",R', 'loadr': b'LOAD "P2",R', 'run': b'RUN "P2"', 'load': b'LOAD "P2"',
-        'clear': b'CLEAR', 'new': b'NEW', 'delete': b'DELETE 10', 'edit': b'15 REM',
-    }
-
     def op_reset(self, op):
         """
         A statement that clears the variables (and with them the FIELD definitions) and resets the
         record buffers: CHAIN to / RUN ,R / LOAD ,R of a program saved on the disk (files stay open),
-        CLEAR, NEW, DELETE, entering a program line, RUN/LOAD of a file (files are closed).
+        CLEAR, NEW, DELETE, MERGE, entering a program line, RUN/LOAD of a file (files are closed).
         Which numbers are still open afterwards is *asked* (LOC), not demanded; for those the file
         position is unchanged and PUT/GET must go on working on the same records. The content of the
         record buffer right after the reset is not judged: the buffer is FIELDed again and read.
+        In program mode the statement is a line of the running program, and the program it CHAINs to
+        (or RUNs/LOADs) holds the statements of the rest of the stretch.
         """
         kind = op['kind']
         self.cx.fs.disarm()
-        self.cx.put_host('P2.BAS', P2_TEXT)
-        was_prog = self.cx.prog
-        if kind == 'edit':
-            self.cx.prog = False      # a program line is typed, never part of a program
-        try:
-            r = self.cx.x(self.RESETS[kind], 'RESET')
-        finally:
-            self.cx.prog = was_prog
+        text, table = build_program(self.lookahead(self.ip + 1) if self.cx.prog else [])
+        self.cx.put_host('P2.BAS', text)
+        self.cx.put_host('M1.BAS', b'15 REM\r\n\x1a')
+        r = self.cx.x(self.RESETS[kind], 'RESET')
         self.run.state('C25', 'reset', kind, self.cx.prog, len(self.h), r.err)
         self.run.probe('reset:' + kind)
+        if kind in self.LOADS:
+            # (after a failed load it is not known what the program memory holds: statements are typed)
+            self.cx.table = table if r.err is None else {}
+        elif kind == 'new':
+            self.cx.table = {}
+        self.after_reset(kind)
+
+    def after_reset(self, kind):
         closed = []
         for n in sorted(self.h):
             h = self.h[n]
@@ -1248,10 +1435,10 @@ class Rand(Base):
                 continue
             self.run.probe('random-file-still-open-after:' + kind)
             if h['pos'] <= 2 ** 24 and v != h['pos']:
-                return self.bad('loc-mismatch' + self.suffix(h['name']), 'LOC(%d)=%r after %s, last '
-                                'record accessed is %d' % (n, v, u(self.RESETS[kind]), h['pos']))
+                return self.bad('loc-mismatch' + self.suffix(h['name']), 'LOC(%d)=%r after the variables were '
+                                'cleared (%s), last record accessed is %d' % (n, v, kind, h['pos']))
             h['fields'] = []
-            r = self.cx.x(b'FIELD #%d,%d AS Z%d$' % (n, h['reclen'], n), 'FIELD')
+            r = self.cx.x(self._zfield_stmt(n, h['reclen'], False), 'FIELD')
             if r.err is not None:
                 return self.bad('field-error:after-buffer-reset', 'FIELD over the whole record gave error %d' % r.err)
             v = bytes(self.cx.d.get(b'Z%d$' % n))
@@ -1279,6 +1466,7 @@ class Rand(Base):
 
     def finish(self):
         self.cx.fs.disarm()
+        self.cx.prog = False
         for n in sorted(self.h):
             if self.run.stop:
                 return
@@ -1401,10 +1589,16 @@ class Share(Base):
             stmt = b'OPEN "%s",#%d,"%s"' % (b(mode), n, b(name))
             if mode == 'R':
                 stmt += b',%d' % op['reclen']
+        before = self.cx.host(name)
         r = self.cx.x(stmt, 'OPEN')
         held = self.holders(name, n)
         exclusive = [k for k in held if self.h[k]['mode'] in 'OA']
         self.note('open-' + mode, bool(held), bool(exclusive), bool(access), lock, r.err)
+        if held and r.err is not None and self.cx.host(name) != before:
+            # a refused OPEN has not opened the file: it cannot have truncated or cut it either
+            return self.bad('refused-open-changed-file:new-mode-%s' % MODEWORD[mode].decode(),
+                            '%r gave error %d (#%d has %s open) but the host file went from %r to %r' % (
+                                stmt, r.err, held[0], name, before and before[-40:], self.cx.host(name)))
         if n in self.h or n > self.maxf:
             if r.err is None:
                 self.bad('open-accepted:number-in-use-or>max_files', '%r succeeded' % stmt)
@@ -1433,8 +1627,13 @@ class Share(Base):
             'save': b'SAVE "%s"', 'savea': b'SAVE "%s",A', 'list': b'LIST ,"%s"', 'bsave': b'BSAVE "%s",0,16',
         }[kind] % b(name)
         exclusive = [k for k in self.holders(name) if self.h[k]['mode'] in 'OA']
+        before = self.cx.host(name)
         r = self.cx.x(stmt, kind.upper())
         self.note('sysopen-' + kind, bool(exclusive), r.err)
+        if self.holders(name) and r.err is not None and self.cx.host(name) != before:
+            return self.bad('refused-open-changed-file:' + kind, '%r gave error %d (the file is open under #%d) but the '
+                            'host file went from %r to %r' % (stmt, r.err, self.holders(name)[0],
+                                                              before and before[-40:], self.cx.host(name)))
         if exclusive:
             self.run.probe('unnumbered-open-while-open-for-output')
             if r.err is None:
@@ -1712,6 +1911,24 @@ def gen24(rng, tier):
         if opened and rng.random() < 0.04:
             ops.append({'op': 'resume'})
             continue
+        if opened and rng.random() < 0.05:
+            # a statement that the engine refuses because the file is open under a number: a second OPEN for
+            # OUTPUT/APPEND, SAVE, LIST to the file, BSAVE, KILL, NAME - the data must survive the refusal
+            k = rng.choice(sorted(opened))
+            name = opened[k][0] if rng.random() < 0.9 else rng.choice(names)
+            if rng.random() < 0.55:
+                free = [x for x in range(1, maxf + 1) if x not in opened] or [rng.randint(1, maxf + 1)]
+                ops.append({'op': 'open', 'n': rng.choice(free), 'name': name, 'mode': rng.choice('OOA'),
+                            'syn': int(rng.random() < 0.25)})
+            else:
+                ops.append({'op': 'sysop', 'name': name, 'kind': _wchoice(rng, [
+                    ('save', 2), ('savea', 3), ('list', 2), ('bsave', 1), ('kill', 2), ('name', 1.5), ('nameto', 1)])})
+            if rng.random() < 0.5:
+                # look at the file right away through the number that has it open
+                ops.append({'op': 'lof', 'n': k})
+                if opened[k][1] == 'I':
+                    ops.append({'op': rng.choice(['rditems', 'rdline', 'eof']), 'n': k, 'k': rng.randint(1, 4)})
+            continue
         if not opened or r < 0.16:
             n = rng.randint(1, maxf) if rng.random() < 0.93 else maxf + 1
             name = rng.choice(names)
@@ -1779,8 +1996,10 @@ def gen25(rng, tier):
     ops = []
     opened = {}      # number -> [name, reclen, lock-only?, guessed record position]   (generation-time guess)
     glocks = []      # guessed held locks (number, a, b)
-    if progruns and rng.random() < 0.7:
-        ops.append({'op': 'mode', 'prog': True})
+    inprog = 0       # ops left in the current program-mode stretch
+
+    def enter():
+        return {'op': 'mode', 'prog': True, 'how': _wchoice(rng, [('loadr', 4), ('chain', 2), ('runr', 2), ('typed', 2)])}
 
     def access_op(n, implicit=None):
         x = rng.random()
@@ -1801,6 +2020,17 @@ def gen25(rng, tier):
 
     while len(ops) < nops:
         r = rng.random()
+        if progruns:
+            # stretches of 4-18 ops run as lines of a stored program (the program is entered as a whole
+            # at the start of the stretch; CHAIN/RUN ,R/LOAD ,R inside it go to a program on the disk
+            # that holds the rest of the stretch)
+            if inprog > 0:
+                inprog -= 1
+                if inprog == 0:
+                    ops.append({'op': 'mode', 'prog': False})
+            elif rng.random() < (0.5 if not ops else 0.06):
+                ops.append(enter())
+                inprog = rng.randint(4, 18)
         if cfg['faults'] and r < 0.06:
             f = _gen_fault(rng, FAULT_TABLE_RND)
             if f['kind'] == 'write' and rng.random() < 0.3:
@@ -1809,19 +2039,18 @@ def gen25(rng, tier):
             continue
         if r < 0.02:
             ops.append({'op': 'restart'})
+            if inprog:
+                ops.append(enter())      # the new session has no program: enter it again
             opened = {}
             glocks = []
             continue
-        if opened and resets and rng.random() < 0.06:
+        if opened and (resets or inprog) and rng.random() < (0.09 if inprog else 0.06):
             ops.append({'op': 'reset', 'kind': _wchoice(rng, [
-                ('chain', 5), ('chainmerge', 1), ('chainall', 1), ('runr', 2), ('loadr', 2), ('clear', 2), ('new', 1),
-                ('delete', 1), ('edit', 1), ('run', 0.5), ('load', 0.5)])})
+                ('chain', 5), ('chainmerge', 1), ('chainall', 1), ('runr', 2), ('loadr', 2), ('clear', 2), ('new', 0.7),
+                ('delete', 1), ('edit', 1), ('merge', 1.3), ('run', 0.5), ('load', 0.5)])})
             if ops[-1]['kind'] in ('run', 'load'):
                 opened = {}
                 glocks = []
-            continue
-        if progruns and rng.random() < 0.03:
-            ops.append({'op': 'mode', 'prog': rng.random() < 0.6})
             continue
         if opened and rng.random() < 0.012:
             ops.append({'op': 'resume'})
@@ -2047,16 +2276,15 @@ def run(case):
         with run.w:
             cx.start()
             m = {'C24': Seq, 'C25': Rand, 'C26': Share}[prop](cx, case['cfg'])
+            m.ops = case['ops']
             try:
-                for op in case['ops']:
+                for i, op in enumerate(case['ops']):
                     if run.stop:
                         break
+                    m.ip = i
                     m.step(op)
                 if not run.stop:
                     m.finish()
-            except ProgModeBroken as e:
-                run.violate(prop, 'program-mode:statement-line-not-merged', 'MERGE "OV" (a two-line text file holding '
-                            '%r as line 20) gave error %r\n  statements: %s' % (e.stmt, e.err, cx.witness()))
             except FaultCrash as e:
                 kinds = e.fired[-1][0]
                 run.violate(prop, 'fault-escapes:%s:%s:%s' % (e.label, kinds, e.crash.signature),
